@@ -1,6 +1,8 @@
 """Per-property configuration of the check (see lib/vcheck.py)."""
 PROPS = {
     "C14": dict(
+        claim="Machine-checked proof (Coq 8.16.1) over an executable Gallina model of base_relocs.rs: for every directory the block iterator terminates, never faults and yields the partition the property describes (C14_blocks_partition, C14_chain_meaning); the internal fold equals the flattened non-padding entries of those blocks (C14_fold_is_flat); build followed by parse returns exactly the input pairs in page-aligned blocks of size multiple of four for every rva list and types 1..15 (C14_build_roundtrip). The model is tied to /repo on every run by a differential correspondence check (extracted OCaml model vs the real library on generated directories and rva lists) and by evaluating the extracted boolean form of the theorem statements on the implementation's own observations.",
+        note="Trusted: Coq kernel; extraction (ExtrOcamlBasic only) and the OCaml/Rust glue; the hand-written model is tied to the code only by the correspondence check (differential testing, bounded by its generator). Theorems carry machine-range hypotheses (slice length < 2^64-3; build: 2*len+11 < 2^32). try_from (directory extraction from an image) is covered by the slicing theorems of C04/C05.",
         bin="c14", driver="c14_driver", extract=["C14"],
         quick_cases=4000, thorough_cases=400000, case_seconds=3,
         correspondence="Model/Relocs.v {blocks, fold_pairs, build} vs pelite::base_relocs::{BaseRelocs::parse/iter_blocks/for_each/fold, build}",
@@ -10,5 +12,31 @@ PROPS = {
              "block / the rva list is non-empty; distinct = distinct case text.",
         trusted_base=["Spec/RelocSpec.v as the reading of the property text"],
         assumptions=["slice lengths are below 2^64-3 (Rust: at most isize::MAX)", "build(): 2*len(rvas)+11 < 2^32, equal-length inputs (documented assert)"],
+    ),
+    "C04": dict(
+        claim="Machine-checked proof over an executable model of the address-translation core of pe.rs: for every section table (any number of sections, any u32 field values including wrapping VirtualAddress+size and raw ranges) and every RVA / file offset / (min_size, align) request, the first-match section walk with its wrapping and checked arithmetic equals the loop-free PE mapping rule of Spec/MappingSpec.v (C04_rva_to_file_offset, C04_file_offset_to_rva, C04_slice_file), a successful slice starts at PRD+(rva-VA) of the first containing section and ends where its raw data ends inside the buffer (C04_slice_file_ok), a request for more never succeeds, and offset->rva inverts rva->offset on stored, mapped, unaliased bytes (with the impossibility lemma for aliased ones). Tied to /repo by the correspondence check on generated section tables with boundary-enumerated queries, and by evaluating the spec on the implementation's results.",
+        note="Trusted: Coq kernel, extraction and glue, the generator's own header writer (the model takes the decoded section table from the generator, so pelite's header decoding is exercised too). The model is hand-written; the correspondence is differential testing bounded by its generator.",
+        bin="views", driver="views_driver", model_ml="views_model", driver_includes=["image.ml"], driver_args=["C04"], extract=["Views"], shrink_fields=["q"],
+        quick_cases=3000, thorough_cases=150000, case_seconds=5,
+        correspondence="Model/Mapping.v {rva_to_file_offset, file_offset_to_rva, range_file, slice_file, get_section_bytes} vs pelite::pe32/pe64::Pe methods on PeFile",
+        rule="PE32 and PE32+ images written by the harness's own header writer: 0..12 sections drawn from the shapes of the quantifier (aligned, unaligned raw pointer, "
+             "VirtualSize <,=,> SizeOfRawData, empty raw data, overlapping virtual ranges, shared raw data, VA+size wrapping or ending at 2^32, raw data partly/wholly "
+             "outside the file or wrapping, sections inside the header range, unsorted), SizeOfHeaders in {0, len, header end, random, 0x400}; 40 queries per image at "
+             "section edges (VA, VA+VS, VA+SRD, VA+max, PRD, PRD+SRD, SizeOfHeaders, SizeOfImage, len, 2^32-1) + {-8..8}, min_size in {0,1,2,4,8,len,2^32,2^63,2^64-1,random}, "
+             "align in {1,2,4,8}; buffer placed at 0/4/8/12 mod 16. Non-trivial: at least one query of this property's kinds was evaluated; distinct = distinct case text.",
+        trusted_base=["Spec/MappingSpec.v as the reading of the property text (first containing section, stored / tail / outside)"],
+        assumptions=["section header fields and RVAs are u32, file offsets are usize (64-bit)"],
+    ),
+    "C05": dict(
+        claim="Machine-checked proof over an executable model of rva<->va conversion, mapped-view slicing, va-based reading and the typed read family: closed forms for rva_to_va / va_to_rva and the round trips on (0, SizeOfImage) (C05_rva_va_roundtrip, C05_va_rva_roundtrip), a mapped view slices the buffer at offset rva (C05_slice_section), reading at B+r equals slicing at r as a result value - same region, same error - for file and mapped views (C05_read_is_slice), zero addresses always give Null, fixed-size typed reads are exactly a prefix of the untyped slice, sentinel/predicate reads return the longest prefix before the first matching element or Bounds and never run out of fuel (C05_rd_slice_f), C strings end at the first NUL or fail with Encoding (C05_rd_c_str). Tied to /repo by the correspondence check (both views, both formats, by-rva and by-va paths, element sizes 1/2/4/8).",
+        note="Trusted: Coq kernel, extraction and glue. derva_string::<WideStr> is not reachable through the public API and is not modelled. The model is hand-written; the correspondence is differential testing bounded by its generator.",
+        bin="views", driver="views_driver", model_ml="views_model", driver_includes=["image.ml"], driver_args=["C05"], extract=["Views"], shrink_fields=["q"],
+        quick_cases=3000, thorough_cases=150000, case_seconds=5,
+        correspondence="Model/Views.v {rva_to_va, va_to_rva, slice_section, read_section, read_file, slice, read, rd, rd_copy, rd_slice, rd_slice_s, rd_c_str} vs pelite Pe::{rva_to_va, va_to_rva, slice, read, derva, derva_copy, derva_into, derva_slice, derva_slice_s, derva_c_str, deref, deref_slice_s, deref_c_str}",
+        rule="same image generator as C04, file and mapped views, ImageBase in {0, 0x1000, typical, 2^32-0x1000, 2^64-0x1000}, overridden bases for mapped views; queries by rva and by va = base + rva "
+             "(plus va 0, base-1, random); element sizes 1,2,4,8; array lengths {0, small, 2^61, 2^63-1}; sentinel 0 or random; NUL/zero runs planted in the pattern-filled content. "
+             "Non-trivial: at least one query of this property's kinds was evaluated.",
+        trusted_base=["Spec/ViewSpec.v as the reading of the property text"],
+        assumptions=["Va is 32 or 64 bits wide, usize is 64 bits; derva_string::<WideStr> is not reachable through the public API (WideStr is crate-private) and is not exercised"],
     ),
 }
